@@ -268,7 +268,13 @@ def execute(h):
             return ('exc', 'UnitConversionError')
         return ('ok', _num(Money(amt, curs[b]).amount), _num(amt))
 
-    answers = [{p: direct(mc, *p) for p in pairs} for mc in mconvs]
+    def safely(fn, *a):
+        try:
+            return fn(*a)
+        except Exception as e:      # noqa: cannot be judged
+            return ('unjudged', type(e).__name__)
+
+    answers = [{p: safely(direct, mc, *p) for p in pairs} for mc in mconvs]
 
     def gdirect(gc, a, b):
         try:
@@ -279,7 +285,8 @@ def execute(h):
             return ('none',)
         return ('ok', _num(amt))
 
-    ganswers = [{p: gdirect(gc, *p) for p in gpairs} for gc in gconvs]
+    ganswers = [{p: safely(gdirect, gc, *p) for p in gpairs}
+                for gc in gconvs]
 
     # ---- model
     mstack = []     # indices into mconvs, bottom .. top
@@ -323,7 +330,7 @@ def execute(h):
             if a[0] == 'none':
                 skipped += 1
                 continue
-            if a[0] == 'raise':
+            if a[0] in ('raise', 'unjudged'):
                 return ('unjudged',), skipped
             return a, skipped
         return ('exc', 'UnitConversionError'), skipped
@@ -362,6 +369,8 @@ def execute(h):
             o = observe(lambda: _num(moneys[a].convert(curs[b]).amount))
             e = conv_exp(expected_money(p))
             vec.append(o)
+            if e[0] == 'unjudged':
+                continue
             if mstack and e[0] == 'exc':
                 bump(probes, 'top_converter_lacks_rate')
             if o != e:
@@ -374,6 +383,11 @@ def execute(h):
         # --- +, <, == across currencies (first pair only)
         a, b = pairs[0]
         e = expected_money((b, a))   # other converted to self.unit
+        if e[0] == 'unjudged':
+            e = ('exc', None)       # nothing below will match 'ok'
+            skip_ops = True
+        else:
+            skip_ops = False
         if e[0] == 'ok':
             e = ('ok', e[2])         # the raw (unquantised) equivalent
         o = observe(lambda: _num((moneys[a] + moneys[b]).amount))
@@ -383,14 +397,34 @@ def execute(h):
                                     curs[a]).amount))
         else:
             exp = e
-        if o != exp:
+        if o != exp and not skip_ops:
             violate('money_add', 'value', step, pair=[a, b],
+                    expected=list(exp), observed=list(o),
+                    model_stack=list(mstack))
+        # a - b and a / b go through the same implicit conversion
+        o = observe(lambda: _num((moneys[a] - moneys[b]).amount))
+        vec.append(o)
+        if e[0] == 'ok':
+            exp = ('ok', _num(Money(moneys[a].amount - _frac(e[1]),
+                                    curs[a]).amount))
+        else:
+            exp = e
+        if o != exp and not skip_ops:
+            violate('money_sub', 'value', step, pair=[a, b],
+                    expected=list(exp), observed=list(o),
+                    model_stack=list(mstack))
+        o = observe(lambda: _num(moneys[a] / moneys[b]))
+        vec.append(o)
+        exp = ('ok', _num(moneys[a].amount / _frac(e[1]))) \
+            if e[0] == 'ok' else e
+        if o != exp and not skip_ops:
+            violate('money_div', 'value', step, pair=[a, b],
                     expected=list(exp), observed=list(o),
                     model_stack=list(mstack))
         o = observe(lambda: moneys[a] < moneys[b])
         vec.append(o)
         exp = ('ok', moneys[a].amount < _frac(e[1])) if e[0] == 'ok' else e
-        if o != exp:
+        if o != exp and not skip_ops:
             violate('money_lt', 'value', step, pair=[a, b],
                     expected=list(exp), observed=list(o),
                     model_stack=list(mstack))
@@ -402,7 +436,7 @@ def execute(h):
             exp = ('ok', False)
         else:
             exp = None      # top converter lacks the rate: not judged
-        if exp is not None and o != exp:
+        if exp is not None and o != exp and not skip_ops:
             violate('money_eq', 'value', step, pair=[a, b],
                     expected=list(exp), observed=list(o),
                     model_stack=list(mstack))
